@@ -127,6 +127,11 @@ class SymAlg:
         self.trig[ee] = cs
         return cs
 
+    def sqrt_number(self, x):
+        """np.sqrt of a concrete number in exact mode: the exact algebraic number (sqrt(3) stays sqrt(3))"""
+        fr = rationalize(float(x))
+        return sp.sqrt(sp.Rational(fr.numerator, fr.denominator))
+
     def relations(self):
         rel = [a ** 2 - r for a, r in self.atoms.items()]
         rel += [a ** 2 - r ** 2 for a, r in self.abs_atoms.items()]
@@ -605,6 +610,8 @@ class _NPX(_types.ModuleType):
     def sqrt(self, x, *a, **k):
         if hasattr(x, "_uf"):
             return x._uf("sqrt", x)
+        if STATE.exact and isinstance(x, (int, float)) and not isinstance(x, bool) and hasattr(STATE.alg, "sqrt_number"):
+            return X(STATE.alg.sqrt_number(x))
         if _symbolic(x):
             return _map(x, lambda c: X(STATE.alg.sqrt(val(c))))
         return _np.sqrt(x, *a, **k)
@@ -782,6 +789,17 @@ class _Linalg(_types.ModuleType):
 
     def __getattr__(self, name):
         return getattr(_np.linalg, name)
+
+    def inv(self, a):
+        if _is_obj(a):
+            M = sp.Matrix([[val(c) for c in row] for row in a])
+            Mi = M.inv(method="LU")
+            out = _np.empty(a.shape, dtype=object)
+            for i in range(a.shape[0]):
+                for j in range(a.shape[1]):
+                    out[i, j] = X(Mi[i, j])
+            return out.view(XArray)
+        return _np.linalg.inv(a)
 
     def norm(self, a, ord=None, axis=None, **k):
         if getattr(a, "_pyvc_symbolic", False):
